@@ -315,14 +315,14 @@ def throw_only(g, start_id):
     return True
 
 
-def guards_of(g, pred):
+def guards_of(g, pred, N=None):
     """[(cond node, bad_polarity)] for cond nodes where pred(canon expr) gives the
-    polarity under which the operation must refuse"""
+    polarity under which the operation must refuse. N: optional normaliser (aliases / locals expanded)."""
     out = []
     for n in g.live():
         if n['kind'] != 'cond':
             continue
-        p = pred(ir.canon(n['expr']), n)
+        p = pred(N.canon(n['expr']) if N is not None else ir.canon(n['expr']), n)
         if p is not None:
             out.append((n, p))
     return out
@@ -449,7 +449,7 @@ def check_dispatcher(P, ctx):
                     any(x[0] == 'call' and ir.callee_name(x) == 'header' and ir.top_nocast(x[2][0])[:1] == ('param',) for x in ir.walk(c)):
                 return c[1] == '=='
             return None
-        ag = guards_of(g, pred)
+        ag = guards_of(g, pred, util.Norm(P, f, expand_locals=True, inline=False))
         ok = bool(frees) and all(dominated_by_guard(g, n['id'], ag, 'ResourceError') is not None for n in frees)
         ctx.check(ok, rule, 'dealloc:' + cls, site(f), 'an object of allocation class %s raises ResourceError before free' % cls)
     ctx.floor(rule, 11)
